@@ -147,6 +147,10 @@ AsgEdit == On("AsgEdit") /\ \E b \in AsgBoundsSet : (b[1] # asg.min \/ b[2] # as
                  /\ asg' = [asg EXCEPT !.min = b[1], !.max = b[2]]
                  /\ UNCHANGED <<now, api, run, pend, pc, ctl, accepted, alive>>
 
+\* an operator raises the desired capacity by hand (more nodes than max_nodes may then register)
+DesiredBump == On("DesiredBump") /\ asg.desired < asg.max /\ asg' = [asg EXCEPT !.desired = @ + 1]
+                 /\ UNCHANGED <<now, api, run, pend, pc, ctl, accepted, alive>>
+
 \* the controller process restarts: its memory is lost, the ghost is per lifetime
 Restart == On("Restart") /\ (ctl # [Ctl0 EXCEPT !.minEff = ctl.minEff, !.maxEff = ctl.maxEff] \/ ~alive \/ accepted # Never)
                  /\ ctl' = [Ctl0 EXCEPT !.minEff = IF CfgC.auto THEN pc.min ELSE CfgC.min, !.maxEff = IF CfgC.auto THEN pc.max ELSE CfgC.max]
@@ -203,7 +207,7 @@ RunOnceAct ==
        /\ UNCHANGED <<now, pend, run>>      \* pods of a removed node stay until they finish or the Node is collected
 
 Next == Tick \/ PodArrive \/ PodSchedule \/ PodFinish \/ CloudLaunch \/ Register \/ Cordon \/ Uncordon \/ ExtForce \/ ExtUnforce
-        \/ Annotate \/ Unannotate \/ ExtTaint \/ ExtUntaint \/ NodeGone \/ AsgEdit \/ Restart \/ RunOnceAct
+        \/ Annotate \/ Unannotate \/ ExtTaint \/ ExtUntaint \/ NodeGone \/ AsgEdit \/ DesiredBump \/ Restart \/ RunOnceAct
 
 Spec == Init /\ [][Next]_vars
 
